@@ -188,7 +188,7 @@ static void op_bool(const Case& c, Outcome& o) { o.cls(0); uint64_t m = c.w[0], 
 template <typename T> static void op_outparam(const Case& c, Outcome& o) { o.cls(0); uint64_t i = c.w[0];
 #define OPL(L, Q) { glm::vec<L, T, Q> v; T a[4]; for (int k = 0; k < L; ++k) { a[k] = pick<T>(i, k, 0); v[k] = a[k]; } glm::vec<L, int, Q> e(0); glm::vec<L, T, Q> ip(0); glm::vec<L, T, Q> m = glm::frexp(v, e), fr = glm::modf(v, ip); \
     for (int k = 0; k < L; ++k) { int es = 0; T is = 0; T ms = glm::frexp(a[k], es), fs = glm::modf(a[k], is); bool fin = a[k] - a[k] == 0; if (!same_bits(m[k], ms) || (fin && e[k] != es) || !same_bits(fr[k], fs) || !same_bits(ip[k], is)) { o.res(bits_of(m[k]), bits_of(fr[k])); o.exp(bits_of(ms), bits_of(fs)); o.bad(L * 4 + QN<Q>::id, "frexp/modf(vec, out vec): component i differs from the scalar overload"); return; } } \
-    { glm::vec<L, T, Q> al = v; glm::vec<L, T, Q> fa = glm::modf(al, al); for (int k = 0; k < L; ++k) { T is = 0; T fs = glm::modf(a[k], is); if (!same_bits(fa[k], fs) || !same_bits(al[k], is)) { o.res(bits_of(fa[k]), bits_of(al[k])); o.exp(bits_of(fs), bits_of(is)); o.bad(100 + L * 4 + QN<Q>::id, "modf(v, v) (output aliases input): component i differs from the scalar overload"); return; } } }\
+    { glm::vec<L, T, Q> al = v; glm::vec<L, T, Q> fa = glm::modf(al, al); for (int k = 0; k < L; ++k) { T is = 0; T fs = glm::modf(a[k], is); if (!same_bits(fa[k], fs) || !same_bits(al[k], is)) { o.res(bits_of(fa[k]), bits_of(al[k])); o.exp(bits_of(fs), bits_of(is)); o.bad(70 + L * 4 + QN<Q>::id, "modf(v, v) (output aliases input): component i differs from the scalar overload"); return; } } }\
     glm::vec<L, int, Q> ex; for (int k = 0; k < L; ++k) ex[k] = (int)((i + 7 * k) % 41) - 20; glm::vec<L, T, Q> ld = glm::ldexp(v, ex); for (int k = 0; k < L; ++k) if (!same_bits(ld[k], glm::ldexp(a[k], ex[k]))) { o.res(bits_of(ld[k])); o.exp(bits_of(glm::ldexp(a[k], ex[k]))); o.bad(50 + L * 4 + QN<Q>::id, "ldexp(vec, ivec): component i differs from the scalar overload"); return; } }
   OPL(1, glm::highp) OPL(2, glm::highp) OPL(3, glm::highp) OPL(4, glm::highp) OPL(2, glm::lowp) OPL(3, glm::mediump) OPL(4, glm::lowp) }
 template <typename T> static void op_reduce(const Case& c, Outcome& o) { o.cls(0); uint64_t i = c.w[0];
